@@ -28,21 +28,28 @@ def load():
     out = []
     for p in sorted(glob.glob(os.path.join(HERE, "survey", "b*.json"))) + [os.path.join(HERE, "extra.json")]:
         if os.path.exists(p):
-            out += [tuple(x[:4]) for x in json.load(open(p))]
+            out += [tuple(x[:5]) if len(x) > 4 else tuple(x[:4]) + (None,) for x in json.load(open(p))]
     return out
 
 
 def run_one(m):
-    name, file, old, new = m
+    name, file, old, new, mode = m
     tmp = tempfile.mkdtemp(prefix="ovldlint-st-")
     try:
         shutil.copytree(os.path.join(REPO, "src", "ovld"), os.path.join(tmp, "src", "ovld"))
         if file:
             path = os.path.join(tmp, file)
             s = open(path).read()
-            if s.count(old) < 1:
-                return name, "SKIP", {}, {}
-            open(path, "w").write(s.replace(old, new, 1))
+            if mode == "word":
+                import re
+
+                if not re.search(r"\b%s\b" % re.escape(old), s):
+                    return name, "SKIP", {}, {}
+                open(path, "w").write(re.sub(r"\b%s\b" % re.escape(old), new, s))
+            else:
+                if s.count(old) < 1:
+                    return name, "SKIP", {}, {}
+                open(path, "w").write(s.replace(old, new, 1))
         res = {}
         outs = {}
         for p in PROPS:
@@ -65,7 +72,7 @@ def main(argv):
     muts = load()
     if names:
         muts = [m for m in muts if m[0] in names]
-    muts = [("<unchanged>", None, None, None)] + muts
+    muts = [("<unchanged>", None, None, None, None)] + muts
     with mp.Pool(16) as pool:
         results = pool.map(run_one, muts)
     expect = {}
